@@ -168,15 +168,20 @@ def build(c, seed):
             stores.append(f"mov i64:{16 * k}(out), {name}")
         rregs.append(name)
     plist = list(c["res"]) + pdecl[:nnamed] + (["..."] if c["va"] is not None else [])
-    lines = ["m: module", "pr: proto " + ", ".join(plist) if plist else "pr: proto", "import probe", "export f",
-             "f: func p:in, p:out"]
-    if locs:
-        lines.append("   local " + ", ".join(locs))
-    lines += ["   " + x for x in loads]
-    lines.append("   call " + ", ".join(["pr", "probe"] + rregs + ops))
-    lines += ["   " + x for x in stores]
-    lines += ["   ret", "   endfunc", "endmodule"]
-    b.text = "\n".join(lines) + "\n"
+
+    def func_text(fname, prname):
+        """prototype item + function calling the probe through it"""
+        lines = [f"{prname}: proto " + ", ".join(plist) if plist else f"{prname}: proto", f"export {fname}",
+                 f"{fname}: func p:in, p:out"]
+        if locs:
+            lines.append("   local " + ", ".join(locs))
+        lines += ["   " + x for x in loads]
+        lines.append("   call " + ", ".join([prname, "probe"] + rregs + ops))
+        lines += ["   " + x for x in stores]
+        lines += ["   ret", "   endfunc"]
+        return lines
+    b.func_text = func_text
+    b.text = "\n".join(["m: module", "import probe"] + func_text("f", "pr") + ["endmodule"]) + "\n"
     b.img = bytes(img)
     b.exp = exp
     b.raw = raw
@@ -201,6 +206,22 @@ def request(cid, c, b, engines, callee=None):
     r.append("MIR")
     r.append(b.text.rstrip("\n"))
     r.append("ENDMIR")
+    return "\n".join(r) + "\n"
+
+
+def seq_request(cid, builds, engines):
+    """one request running the prototypes of `builds` one after another in ONE context"""
+    r = [f"CASE {cid}", "ENG " + " ".join(engines)]
+    mod = ["m: module", "import probe"]
+    for k, b in enumerate(builds):
+        r.append(f"STEP {k}")
+        r.append("RET %x %x %x %x %x %x %x %x %x" % (b.ret["g0"], b.ret["g1"], b.ret["x0"], b.ret["x1"], b.nld,
+                                                     b.ld[0][0], b.ld[0][1], b.ld[1][0], b.ld[1][1]))
+        r.append("IN " + b.img.hex())
+        r.append(f"OUTN {b.outn}")
+        mod += b.func_text(f"f{k}", f"pr{k}")
+    mod.append("endmodule")
+    r += ["MIR"] + mod + ["ENDMIR"]
     return "\n".join(r) + "\n"
 
 
@@ -318,7 +339,9 @@ def run_harness(exe, reqs, so=None, timeout=None):
                 newp.append((cid, engs, t))
                 continue
             todo = [e for e in engs if e not in skip.get(cid, [])]
-            done = [e for e in todo if ("O" in res.get((cid, e), {}) or "E" in res.get((cid, e), {}))]
+            nst = t.count("\nSTEP ")   # a sequence request answers under the ids <cid>.<step>
+            last = cid if nst == 0 else f"{cid}.{nst - 1}"
+            done = [e for e in todo if ("O" in res.get((last, e), {}) or "E" in res.get((last, e), {}))]
             rest = [e for e in todo if e not in done]
             if rest:
                 found = True
@@ -813,6 +836,110 @@ def rand_case(rng, gcc_mode=False):
     return {"res": res, "args": args, "va": va}
 
 
+def res_legal(r):
+    ni = sum(1 for t in r if t in INT_T or t == "p")
+    nx = sum(1 for t in r if t in ("f", "d"))
+    nl = sum(1 for t in r if t == "ld")
+    return ni <= 2 and nx <= 2 and nl <= 2
+
+
+VA_OK = ("i64", "d", "ld")
+
+
+def va_type_ok(t):
+    return t in VA_OK or t.startswith("blk")
+
+
+def related(rng, c):
+    """prototypes differing from c in exactly one position of the signature the interpreter's trampoline
+    cache is keyed by: one result type, one argument type, one block size, the vararg flag, the split
+    between named and variadic arguments, the argument count (equal prefix), the result count"""
+    out = []
+    res, args, va = c["res"], c["args"], c["va"]
+    for k in range(len(res)):
+        alts = [t for t in ["i64", "d", "ld", "i8", "u32", "f", "p", "u16"] if t != res[k]]
+        for t in (alts[rng.below(len(alts))], alts[rng.below(len(alts))]):
+            r2 = res[:k] + [t] + res[k + 1:]
+            if res_legal(r2):
+                out.append((f"res@{k}", {**c, "res": r2}))
+    pos = list(range(len(args)))
+    if len(pos) > 4:
+        pos = sorted({rng.below(len(args)) for _ in range(4)} | {0, len(args) - 1})
+    for j in pos:
+        n, sz = tparse(args[j])
+        alts = [t for t in ["i64", "i32", "d", "f", "ld", "p", "u8", "blk1:8", "blk2:8", "blk0:24", "rblk:24", "blk3:16"]
+                if t != args[j]]
+        out.append((f"arg@{j}", {**c, "args": args[:j] + [alts[rng.below(len(alts))]] + args[j + 1:]}))
+        if n in BLK_SIZES:
+            q = (sz + 7) // 8
+            same = [x for x in BLK_SIZES[n] if x != sz and (x + 7) // 8 == q]
+            diff = [x for x in BLK_SIZES[n] if (x + 7) // 8 != q]
+            for pool in (same, diff):
+                if pool:
+                    out.append((f"blksize@{j}", {**c, "args": args[:j] + [f"{n}:{rng.choice(pool)}"] + args[j + 1:]}))
+    if va is None:
+        out.append(("vararg", {**c, "va": []}))
+    elif not va:
+        out.append(("vararg", {**c, "va": None}))
+    if args and va_type_ok(args[-1]):
+        out.append(("split", {**c, "args": args[:-1], "va": [args[-1]] + (va or [])}))
+    if va:
+        out.append(("split", {**c, "args": args + [va[0]], "va": va[1:]}))
+    if args:
+        out.append(("argcount", {**c, "args": args[:-1]}))
+    out.append(("argcount", {**c, "args": args + [rng.choice(["i64", "d", "i32", "blk1:8"])]}))
+    if res:
+        out.append(("nres", {**c, "res": res[:-1]}))
+    for t in ("i64", "d", "ld"):
+        if len(res) < 4 and res_legal(res + [t]):
+            out.append(("nres", {**c, "res": res + [t]}))
+            break
+    return out
+
+
+def related_sequences(rng, n_bases):
+    """sequences of related prototypes, both orders, plus revisits"""
+    seqs = []
+    for _ in range(n_bases):
+        c = rand_case(rng)
+        if len(all_args(c)) > 12:
+            c = {**c, "args": c["args"][:8]}
+        if not c["res"] and rng.chance(2, 3):
+            c = {**c, "res": rng.choice([["i64", "i64"], ["i64", "d"], ["d", "i8"], ["ld", "i32", "d"], ["f"]])}
+        rel = related(rng, c)
+        for kind, v in rel:
+            seqs.append((kind, [c, v]))
+            seqs.append((kind, [v, c]))
+        if len(rel) >= 2:
+            a, b = rel[rng.below(len(rel))], rel[rng.below(len(rel))]
+            seqs.append((a[0] + "+" + b[0], [c, a[1], b[1], c]))
+            seqs.append((a[0] + "+" + b[0], [a[1], b[1], c, a[1]]))
+    return seqs
+
+
+RES_ALPHA = ["i64", "i8", "d", "f", "ld"]
+
+
+def exhaustive_result_pairs(maxlen):
+    """every ordered pair of legal result lists (length <= maxlen over RES_ALPHA) differing in exactly one
+    position, in two argument contexts"""
+    lists = [[]]
+    allr = []
+    for _ in range(maxlen):
+        lists = [l + [t] for l in lists for t in RES_ALPHA]
+        allr += [l for l in lists if res_legal(l)]
+    seqs = []
+    for ctxargs in ([], ["i32", "d"]):
+        for r in allr:
+            for k in range(len(r)):
+                for t in RES_ALPHA:
+                    r2 = r[:k] + [t] + r[k + 1:]
+                    if t != r[k] and res_legal(r2):
+                        seqs.append((f"res@{k}", [{"res": r, "args": ctxargs, "va": None},
+                                                  {"res": r2, "args": ctxargs, "va": None}]))
+    return seqs
+
+
 EXH_ALPHA = ["i32", "i64", "f", "d", "ld", "blk0:24", "blk1:8", "blk1:16", "blk2:8", "blk2:16", "blk3:16",
              "blk4:16", "rblk:24"]
 EXH_PREFIXES = [[], ["i64"] * 5, ["i64"] * 6, ["i64"] * 7, ["d"] * 7, ["d"] * 8, ["i64"] * 6 + ["d"] * 8,
@@ -921,6 +1048,40 @@ class Runner:
                 else:
                     jd = judge(c, b, e, r, m, model_x)
                 out.append((c, e, jd, m))
+        return out
+
+    def eval_seqs(self, seqs, engines, seed_salt=0):
+        """run call SEQUENCES (lists of prototypes) each in one context per engine, so that state kept
+        between calls (the interpreter's ff-interface cache keyed by signature) is exercised.
+        Returns list of (seq index, step, case, engine, judgement, model)."""
+        flat = [c for sq in seqs for c in sq]
+        ms_all = self.model.place([case_line(c) for c in flat])
+        builds, pairs, k = [], [], 0
+        for si, sq in enumerate(seqs):
+            bs = []
+            for st, c in enumerate(sq):
+                b = build(c, (self.sentinel_seed(c) + 977 * st + seed_salt) & M64)
+                bs.append(b)
+                pairs += passint_pairs(c, b)
+            builds.append(bs)
+        model_x = dict(zip(pairs, self.model.passint(pairs)))
+        reqs = [(f"q{si}", engines, seq_request(f"q{si}", bs, engines)) for si, bs in enumerate(builds)]
+        res, crashes = run_parallel(self.exe, reqs, None)
+        out = []
+        for si, sq in enumerate(seqs):
+            for st, c in enumerate(sq):
+                m = ms_all[k]
+                k += 1
+                for e in engines:
+                    r = res.get((f"q{si}.{st}", e))
+                    if r is None:
+                        whole = res.get((f"q{si}", e))     # crash/hang is recorded for the whole request
+                        r = {"X": (whole or {}).get("X", "no output"), "base": None}
+                    if r.get("X", "").startswith("skipped"):
+                        self.n_skipped += 1
+                        continue
+                    self.n_eval += 1
+                    out.append((si, st, c, e, judge(c, builds[si][st], e, r, m, model_x), m))
         return out
 
     def sentinel_seed(self, c):
@@ -1067,10 +1228,46 @@ def main():
                      signature=sig)
         return sig
 
+    def report_sequence(sq, step, eng, jd, sig, how="call sequence"):
+        """minimise a history-dependent failure to two calls and report it"""
+        best, bjd, bstep = sq[:step + 1], jd, step
+        for j in range(step):
+            r = [x for x in rn.eval_seqs([[sq[j], sq[step]]], [eng]) if x[1] == 1]
+            if r and r[0][4]["prop"]:
+                best, bjd, bstep = [sq[j], sq[step]], r[0][4], 1
+                break
+        lines = [case_line(x) for x in best]
+        mm = model.place([lines[bstep]])[0]
+        ck.violation({"stage": "tie", "theorem_or_correspondence": "ff_cache_sound / cacheLookup_own vs probe callee",
+                      "input": {"sequence": lines, "failing_step": bstep, "engine": eng, "oracle": "asm-probe"},
+                      "model_output": {"sysv": mm["SYSV"], "res": mm["RES"],
+                                       "note": "placement of a call depends on its own signature only"},
+                      "impl_output": {"observed": bjd.get("obs"), "discrepancies": bjd["prop"][:6]},
+                      "spec_verdict": "the call behaves correctly when it is the only call in the context, but not after "
+                                      "the earlier call(s) of the sequence",
+                      "how_to_rerun": f"cd /verif && ./check C05 --replay <this file>   # {how}"},
+                     what=f"{'interpreter FFI' if eng == 'i' else 'generated code -O' + eng}: after `{lines[0]}` the call "
+                          f"`{lines[bstep]}` fails: {bjd['prop'][0]}",
+                     signature=sig)
+
     # ---- replay mode
     if ck.replay:
         rp = json.load(open(ck.replay))
         inp = rp.get("input", {})
+        if "sequence" in inp:
+            sq = [case_from_line(l) for l in inp["sequence"]]
+            eng = inp.get("engine", "i")
+            rr = rn.eval_seqs([sq], [eng])
+            for (si, st, c, e, jd, m) in rr:
+                ck.log(f"replay step {st} `{case_line(c)}` engine {e}: prop={jd['prop'][:3]} tie={jd['tie'][:3]}")
+            badr = [x for x in rr if x[4]["prop"]]
+            for (si, st, c, e, jd, m) in badr:
+                al = rn.eval_cases([c], [e])[0][2]
+                if not al["prop"]:
+                    report_sequence(sq, st, e, jd, rp.get("signature") or "C05:call-history", how="replay")
+                    break
+            ck.cov["evaluations"] = rn.n_eval
+            ck.finish()
         c = case_from_line(inp["prototype"])
         eng = inp.get("engine", "i")
         sds = [inp["sentinel_seed"]] if "sentinel_seed" in inp else None
@@ -1153,6 +1350,61 @@ def main():
         for f in futs:
             results += [(x, True) for x in f.result()]
     ck.log(f"gcc oracle: {len(gcc_cases)} prototypes: {time.time() - t:.1f}s")
+
+    # ---- stage 3b: call SEQUENCES in one context (trampoline cache keyed by signature, generator state)
+    t = time.time()
+    seqs = exhaustive_result_pairs(3 if thorough else 2) + related_sequences(ck.rng, 1500 if thorough else 150)
+    model.place([case_line(c) for _, sq in seqs for c in sq])      # one driver call for all of them
+    # (an expected MIR error in one step abandons the context, so sequences use legal result lists only)
+    seqs = [(k, sq) for (k, sq) in seqs if all(fits(c) and res_legal(c["res"]) for c in sq)]
+    if n_crash >= 3 or rn.n_skipped:
+        seqs = seqs[:300]
+    seq_res = rn.eval_seqs([sq for _, sq in seqs], ["i", "0", "2"])
+    ck.log(f"sequences: {len(seqs)} call sequences ({sum(len(sq) for _, sq in seqs)} calls) x 3 engines: {time.time() - t:.1f}s")
+    seq_kinds = {}
+    for k, sq in seqs:
+        for kk in k.split("+"):
+            kk = kk.split("@")[0]
+            seq_kinds[kk] = seq_kinds.get(kk, 0) + 1
+    # a failing step is a finding about the call history only if the same prototype passes when alone
+    bad = [(si, st, c, e, jd, m) for (si, st, c, e, jd, m) in seq_res if jd["prop"] or jd["tie"]]
+    alone = {}
+    if bad:
+        uniq = {}
+        for (si, st, c, e, jd, m) in bad:
+            uniq.setdefault(case_line(c), c)
+        for (c2, e2, j2, m2) in rn.eval_cases(list(uniq.values()), ["i", "0", "2"], tag="sa"):
+            alone[(case_line(c2), e2)] = (c2, e2, j2, m2)
+    seq_viol, seq_tie = [], []
+    for (si, st, c, e, jd, m) in bad:
+        a = alone.get((case_line(c), e))
+        if a is not None and (a[2]["prop"] or a[2]["tie"]):
+            results.append((a, False))          # fails alone as well: the ordinary path classifies it
+        elif jd["prop"]:
+            seq_viol.append((si, st, c, e, jd, m))
+        else:
+            seq_tie.append((si, st, c, e, jd, m))
+    results += [((c, e, jd, m), False) for (si, st, c, e, jd, m) in seq_res if not (jd["prop"] or jd["tie"])]
+    seq_reported = set()
+    for (si, st, c, e, jd, m) in seq_viol:
+        p0 = jd["prop"][0]
+        sig = f"C05:{'ff' if e == 'i' else 'gen'}-call-history-{p0['kind']}-{tparse(str(p0.get('type', '')))[0] if p0.get('type') else ''}"
+        if sig in seq_reported or len(seq_reported) >= 6:
+            continue
+        seq_reported.add(sig)
+        report_sequence(seqs[si][1], st, e, jd, sig)
+    if seq_tie and not seq_viol:
+        (si, st, c, e, jd, m) = seq_tie[0]
+        ck.broken_ties.append({"kind": "correspondence", "name": "code model vs probe inside a call sequence",
+                               "first_diff": {"sequence": [case_line(x) for x in seqs[si][1]], "step": st, "engine": e,
+                                              "diff": jd["tie"][:4]}, "count": len(seq_tie)})
+    ck.cov["sequences"] = {"sequences": len(seqs), "calls": sum(len(sq) for _, sq in seqs), "engines": ["i", "0", "2"],
+                           "single_position_changes": seq_kinds, "history_dependent_failures": len(seq_viol),
+                           "rule": "pairs (both orders), and 4-call revisits, of prototypes differing in exactly one "
+                                   "position of the signature (one result type, one argument type, one block size, vararg "
+                                   "flag, named/variadic split, argument count with equal prefix, result count), all calls "
+                                   "of a sequence in ONE context; plus every ordered pair of legal result lists of length <= "
+                                   f"{3 if thorough else 2} over {RES_ALPHA} differing in one position"}
 
     # ---- stage 4: judge
     dist = {"engines": {}, "arg_types": {}, "nargs": {}, "stack_words": {}, "variadic": 0, "results": {},
